@@ -77,6 +77,9 @@ pub struct Profile {
     pub elementwise_first: bool,
     /// compound assignments use all twelve operators whatever `ops` says (structural profiles)
     pub all_compound_ops: bool,
+    /// components have array ports that are written `c.pin[e] <== ..` and read `c.pout[e]`
+    /// (structural profiles only: the index is any expression over the locals)
+    pub port_arrays: bool,
 }
 
 #[derive(Clone, Debug)]
@@ -122,6 +125,7 @@ impl Profile {
             data_ternary_chance: 0,
             elementwise_first: false,
             all_compound_ops: false,
+            port_arrays: false,
         }
     }
     pub fn sem(template: bool, prime: BigUint) -> Profile {
@@ -158,6 +162,7 @@ impl Profile {
             data_ternary_chance: 0,
             elementwise_first: false,
             all_compound_ops: false,
+            port_arrays: false,
         }
     }
 }
@@ -431,6 +436,11 @@ impl<'a, 'b> Gen<'a, 'b> {
         }
         let c = comps[self.t.below(comps.len())].clone();
         let Ty::Comp(ti) = c.ty else { return None };
+        if self.p.port_arrays {
+            let ix = self.read(0).unwrap_or_else(|| self.literal());
+            self.saw_data = true;
+            return Some(Expr::Var { id: self.ids.next(), name: c.name, access: vec![Access::Field("pout".into()), Access::Index(ix)] });
+        }
         let sig = &self.p.templates[ti];
         if sig.outputs.is_empty() {
             return None;
@@ -907,6 +917,18 @@ impl<'a, 'b> Gen<'a, 'b> {
     pub fn stmt(&mut self, depth: usize, decl_ok: bool) -> Stmt {
         self.budget = self.budget.saturating_sub(1);
         let roll = self.t.below(if depth == 0 { 8 } else { 14 });
+        if self.p.port_arrays && self.t.chance(40) {
+            let comps: Vec<VarInfo> =
+                self.visible().into_iter().filter(|v| matches!(v.ty, Ty::Comp(_)) && self.assigned.contains(&v.key)).collect();
+            if !comps.is_empty() {
+                let c = comps[self.t.below(comps.len())].clone();
+                let ix = self.read(0).unwrap_or_else(|| self.literal());
+                let lhs = Expr::Var { id: self.ids.next(), name: c.name, access: vec![Access::Field("pin".into()), Access::Index(ix)] };
+                let rhs = self.expr(1);
+                let op = if self.t.chance(128) { AssignOp::Constrain } else { AssignOp::Signal };
+                return Stmt::Assign { id: self.ids.next(), lhs, op, rhs, reversed: false };
+            }
+        }
         if self.p.call_bias > 0 && self.t.chance(if self.in_loop > 0 { 40 } else { 24 }) {
             if let Some(s) = self.array_chain() {
                 return s;
